@@ -65,6 +65,16 @@ def anchorAfterUncaptured (q : String) : Bool :=
     | [] => false
   go toks
 
+/-- … and that preceding sibling pattern has child patterns of its own (`(x (y)) . (z)`)? -/
+def anchorAfterUncapturedSubtree (q : String) : Bool :=
+  let toks := (tokenize (q.length + 1) q.toList #[]).toList
+  let rec go : List Tok → Bool
+    | x :: .rp :: .dot :: rest =>
+      (match x with | .ident _ => false | .lp => false | _ => true) || go (.rp :: .dot :: rest)
+    | _ :: rest => go rest
+    | [] => false
+  go toks
+
 def runCase (s : St) : String :=
   let tail := s!"compiled={s.compiled.getD false} haserror={s.hasError}"
   match buildVT s.nodes.toList with
@@ -95,7 +105,7 @@ def runCase (s : St) : String :=
         else if !quant && !completeB impl model then
           let bad := model.filter fun x => countOf x model > countOf x impl
           let subsumed := bad.all fun x => impl.any fun y => y.1 == x.1 && y != x && subBag x.2 y.2
-          let kind := if subsumed then "incomplete-subsumed" else if (s.query.splitOn "(MISSING").length > 1 then "incomplete-missing-uncaptured" else if (s.query.splitOn "(ERROR ").length > 1 then "incomplete-error-children-uncaptured" else if anchorAfterUncaptured s.query then "incomplete-anchor-uncaptured" else "incomplete"
+          let kind := if subsumed then "incomplete-subsumed" else if (s.query.splitOn "(MISSING").length > 1 then "incomplete-missing-uncaptured" else if (s.query.splitOn "(ERROR ").length > 1 then "incomplete-error-children-uncaptured" else if anchorAfterUncapturedSubtree s.query then "incomplete-anchor-after-uncaptured-subtree" else if anchorAfterUncaptured s.query then "incomplete-anchor-uncaptured" else "incomplete"
           s!"{s.id} judge=FAIL {kind} first={repr bad.head!} {info}"
         else s!"{s.id} judge=ok {info}"
       | _ =>
